@@ -44,6 +44,8 @@ pub enum Op {
     Remove { path: String },
     /// validate `times` times back to back
     Validate { times: usize },
+    /// the caller thread does unrelated work first: parses `n` distinct contents in a throwaway parser
+    Warmup { n: usize },
     /// the file changes on disk (the parser must not notice until told); `tail` = raw bytes appended
     DiskWrite {
         path: String,
@@ -65,6 +67,7 @@ impl Op {
             Op::Add { .. } => "add_content",
             Op::Remove { .. } => "remove_content",
             Op::Validate { .. } => "validate",
+            Op::Warmup { .. } => "warmup",
             Op::DiskWrite { .. } => "disk_write",
             Op::AddFile { .. } => "add_file",
         }
@@ -127,6 +130,7 @@ pub fn to_json(s: &HistScenario) -> J {
                             }
                             Op::Remove { path } => o.put("path", J::s(path.clone())),
                             Op::Validate { times } => o.put("times", J::u(*times as u64)),
+                            Op::Warmup { n } => o.put("n", J::u(*n as u64)),
                             Op::DiskWrite { path, content, tail } => {
                                 o.put("path", J::s(path.clone()));
                                 o.put("text", J::s(content.text()));
@@ -182,6 +186,9 @@ pub fn from_json(j: &J) -> Result<HistScenario, String> {
             Some("remove_content") => Op::Remove { path: path()? },
             Some("validate") => Op::Validate {
                 times: st.get("times").and_then(|t| t.as_u64()).unwrap_or(1) as usize,
+            },
+            Some("warmup") => Op::Warmup {
+                n: st.get("n").and_then(|t| t.as_u64()).unwrap_or(0) as usize,
             },
             Some("disk_write") => Op::DiskWrite {
                 path: path()?,
@@ -587,6 +594,9 @@ pub fn generate(rng: &mut Rng, prop: Prop, thorough: bool) -> (HistScenario, Str
     let w_remove = *rng.pick(&[5u32, 15, 25]);
     let w_remove_absent = *rng.pick(&[0u32, 3, 8]);
     let w_validate = *rng.pick(&[5u32, 15, 30]);
+    let w_readd = *rng.pick(&[0u32, 5, 15]);
+    let w_warmup = *rng.pick(&[0u32, 0, 0, 4]);
+    let mut past: Vec<(String, Content)> = Vec::new();
     let files_enabled = prop == Prop::C12 && rng.pct(75) || prop == Prop::C13 && rng.pct(30);
     let w_disk = if files_enabled { *rng.pick(&[10u32, 20]) } else { 0 };
     let w_add_file = if files_enabled { *rng.pick(&[15u32, 30, 45]) } else { 0 };
@@ -678,7 +688,14 @@ pub fn generate(rng: &mut Rng, prop: Prop, thorough: bool) -> (HistScenario, Str
             w_validate,
             w_disk,
             w_add_file,
+            if past.is_empty() { 0 } else { w_readd },
+            w_warmup,
         ];
+        for st in steps.iter().rev().take(1) {
+            if let Op::Add { path, content } = &st.op {
+                past.push((path.clone(), content.clone()));
+            }
+        }
         match rng.weighted(&w) {
             0 => {
                 // add or replace with a fresh document
@@ -773,6 +790,23 @@ pub fn generate(rng: &mut Rng, prop: Prop, thorough: bool) -> (HistScenario, Str
                 disk_bytes.insert(disk_slot(&p), all);
                 st.disk.insert(disk_slot(&p), c.clone());
                 steps.push(mk(rng, Op::DiskWrite { path: p, content: c, tail }, "disk_write"));
+            }
+            7 => {
+                // the same content again (file saved unchanged), or an earlier version comes back
+                let (p, c) = if !live_paths.is_empty() && rng.pct(50) {
+                    let p = rng.pick(&live_paths).clone();
+                    let c = st.live[&pb(&p)].1.clone();
+                    (p, c)
+                } else {
+                    rng.pick(&past).clone()
+                };
+                let tag = if st.live.get(&pb(&p)).map(|(_, x)| *x == c).unwrap_or(false) { "readd_same" } else { "revert_to_earlier" };
+                st.live.insert(pb(&p), (p.clone(), c.clone()));
+                steps.push(mk(rng, Op::Add { path: p, content: c }, tag));
+            }
+            8 => {
+                let n = if rng.pct(50) { rng.range(1, 10) } else { rng.range(64, 130) };
+                steps.push(mk(rng, Op::Warmup { n }, "warmup"));
             }
             _ => {
                 let on_disk: Vec<String> = st
@@ -903,6 +937,11 @@ pub fn shrink_candidates(s: &HistScenario) -> Vec<HistScenario> {
     // simplify single steps
     for (i, st) in s.steps.iter().enumerate() {
         match &st.op {
+            Op::Warmup { n } if *n > 1 => {
+                let mut c = s.clone();
+                c.steps[i].op = Op::Warmup { n: n * 3 / 4 };
+                out.push(c);
+            }
             Op::Validate { times } if *times > 1 => {
                 let mut c = s.clone();
                 c.steps[i].op = Op::Validate { times: 1 };
